@@ -205,6 +205,10 @@ func TestC19_P_FixtureGenerators(t *testing.T) {
 			case "UnixFSDirectory+ChildGenerator":
 				bw := rapid.SampledFrom([]int{0, 2, 4}).Draw(t, "bitwidth")
 				nfiles := rapid.IntRange(0, 30).Draw(t, "nfiles")
+				if rapid.IntRange(0, 9).Draw(t, "manyFiles") == 0 {
+					// nearly as many children as the name generator has words (it must still find an unused name for each)
+					nfiles = rapid.IntRange(500, 627).Draw(t, "nfilesMany")
+				}
 				opt = fmt.Sprintf("bitwidth=%d files=%d", bw, nfiles)
 				n := 0
 				reuse := rapid.Bool().Draw(t, "reuseVariable")
